@@ -769,6 +769,7 @@ theorem stepOp_inv {h : Host} (op : Op) (hi : Inv h) : Inv (stepOp h op).1 := by
   | rpc r => exact step_inv r hi
   | tip n => exact hi
   | time n => exact hi
+  | sectorErr r b => exact hi
   | sector root =>
     intro cid cs hc
     refine cinv_mono ?_ (hi cid cs hc)
@@ -1154,6 +1155,7 @@ theorem stepOp_attInv {h : Host} (op : Op) (hi : AttInv h) : AttInv (stepOp h op
   | tip n => exact hi
   | time n => exact hi
   | sector r => exact hi
+  | sectorErr r b => exact hi
   | form cid c => simp only [stepOp]; split <;> exact hi
   | renew cid newcid c =>
     simp only [stepOp]
@@ -1446,6 +1448,7 @@ theorem stepOp_evolves (h : Host) (op : Op) (cid : Nat) (cs : CState) (hc : h.co
   | tip n => exact ⟨cs, hc, Evolves.refl _⟩
   | time n => exact ⟨cs, hc, Evolves.refl _⟩
   | sector r => exact ⟨cs, hc, Evolves.refl _⟩
+  | sectorErr r b => exact ⟨cs, hc, Evolves.refl _⟩
   | form cid' c =>
     simp only [stepOp]
     split
@@ -1522,5 +1525,30 @@ theorem decideReplenish_vals {h : Host} {pool : Bool} {cid : Nat} {accounts : Li
     intro hz; apply hne; simp [decideReplenish, hvalid, hdup, lockForRevision, hc, hr, hv, hz]
   have hle' : ¬ maxCurrency < depositTotal (replenishDeposits (if pool then poolBal h.pools else h.accounts) target accounts) := by omega
   simp [decideReplenish, hvalid, hdup, lockForRevision, hc, hr, hv, hnz, hle', hb, hv2, ha]
+
+/-! ## a failing sector store -/
+
+theorem decideAppend_store_ok {h : Host} {cid : Nat} {p : Prices} {chal : Sig} {sectors : List Nat} {second : Option Sig}
+    {e : Effect} (he : (decideAppend h cid p chal sectors second).eff = e) (hne : e ≠ .none) :
+    storeFailure h sectors [] = none := by
+  unfold decideAppend at he
+  cases second with
+  | none => rejall; all_goals (first | rej | contradiction | assumption)
+  | some rsig =>
+  rejall
+  assumption
+
+theorem storeFailure_none {h : Host} (l : List Nat) : ∀ asked, storeFailure h l asked = none → ∀ r ∈ l, h.sectorErr r = false := by
+  induction l with
+  | nil => intro _ _ r hr; simp at hr
+  | cons x l ih =>
+    intro asked hs r hr
+    simp only [storeFailure] at hs
+    split at hs
+    · simp at hs
+    · rename_i hx
+      rcases List.mem_cons.mp hr with rfl | hr
+      · simpa using hx
+      · exact ih _ hs r hr
 
 end Verif.Rhp
